@@ -17,6 +17,7 @@ REGISTRY = [
     ("gen-mainwiring", "MainWiring.v", (C.REPO,)),
     ("gen-conftags", "ConfTags.v", ()),
     ("gen-nas", "NasDesc.v", ("coq",)),
+    ("gen-builders", "Builders.v", (C.REPO,)),
 ]   # (sub, outfile, args)
 
 
